@@ -212,6 +212,16 @@ def examples_strategy(draw, tier='quick', allow=lambda c: True,
         i = draw(st.integers(0, len(xs) - 1))
         xs.append(draw(st.sampled_from([' ', '\t', '  ', '', ''])) + xs[i]
                   + draw(st.sampled_from(['', ' ', '\n', '\n'])))
+        if draw(st.integers(0, 2)) == 0:
+            # invisible characters that are NOT white space at an end of an
+            # example (a byte-order mark, a zero-width space, a word
+            # joiner): part of the example, whatever is stripped
+            j = draw(st.integers(0, len(xs) - 1))
+            if xs[j] is not None:
+                xs.append(draw(st.sampled_from(['\ufeff', '\u200b', '', ' ']))
+                          + xs[j]
+                          + draw(st.sampled_from(['\u200b', '\u2060',
+                                                  '\u200b ', '\ufeff'])))
         if draw(st.booleans()):
             # several examples that are another example plus a final line
             # break ('$' also matches just before one)
